@@ -104,17 +104,111 @@ def _work(chunk):
     return acc
 
 
+# ---------------------------------------------------------------------------------------
+# histories on ONE transformer instance: transform(a); transform(b)[; transform(c)] must give for the last program exactly
+# what a fresh instance gives (differential oracle), and pass the census.  State carried from one call to the next
+# (a cached index, a region stack left behind by a refused program, counters) shows up here and nowhere else.
+
+def reuse_alphabet(tier: str):
+    progs = list(skeleton_sources(1, "marked")) + [(f"T/{k}", v) for k, v in list(all_target_programs())[:0]]
+    extra = ("T/if_in_if_in_while", "T/while_true_break", "T/loopvar_nested", "T/continue_in_while_else_if", "T/return_in_loop_else",
+             "T/nested_andor_left", "T/ifexp_value")
+    progs += [(k, v) for k, v in all_target_programs() if k in extra]
+    return progs
+
+
+def _build(src):
+    from numba_scfg.core.datastructures.ast_transforms import AST2SCFGTransformer
+    tree = ast.parse(src).body
+    scfg = AST2SCFGTransformer(tree).transform_to_SCFG()
+    snap = snapshot_blocks(scfg)
+    guarded(scfg.restructure)
+    return tree, scfg, snap
+
+
+def _transform(tr, src):
+    """-> (kind, dump, (tree, scfg, snap, fdef))"""
+    try:
+        tree, scfg, snap = _build(src)
+    except Exception as e:  # noqa: BLE001  (front end / restructuring: other properties)
+        return "unbuildable", type(e).__name__, None
+    try:
+        fdef = guarded(tr.transform, original=tree[0], scfg=scfg)
+    except NotImplementedError:
+        return "refused", "", None
+    except Exception as e:  # noqa: BLE001
+        return "raised", f"{type(e).__name__} at {exc_fingerprint(e)[1]}", None
+    return "ok", ast.dump(fdef), (tree, scfg, snap, fdef)
+
+
+def _reuse_work(args):
+    from numba_scfg.core.datastructures.ast_transforms import SCFG2ASTTransformer
+    firsts, alphabet, depth = args
+    acc = Acc()
+    fresh = {}
+    for label, src in alphabet:
+        k, d, _ = _transform(SCFG2ASTTransformer(), src)
+        fresh[label] = (k, d)
+
+    def histories(prefix):
+        if len(prefix) >= 2:
+            yield prefix
+        if len(prefix) < depth:
+            for item in alphabet:
+                yield from histories(prefix + [item])
+    for first in firsts:
+        for hist in histories([first]):
+            tr = SCFG2ASTTransformer()
+            for label, src in hist[:-1]:
+                _transform(tr, src)
+            label, src = hist[-1]
+            kind, dump, parts = _transform(tr, src)
+            acc.states += 1
+            acc.transitions += len(hist)
+            acc.counters[f"reuse_histories[depth {len(hist)}]"] += 1
+            names = [h[0] for h in hist]
+            case = {"kind": "reuse", "labels": names, "sources": [h[1] for h in hist]}
+            if (kind, dump) != fresh[label]:
+                fk, fd = fresh[label]
+                what = f"{kind} {dump[:120]}" if kind != "ok" else "a different tree"
+                acc.viol(PROP, f"{PROP}/reused-transformer-differs", f"after transform() of {names[:-1]} the same SCFG2ASTTransformer gives for "
+                         f"{label}: {what}; a fresh instance gives: {fk if fk != 'ok' else 'ok'}", (tuple(names),), case=case)
+                continue
+            if kind == "ok":
+                tree, scfg, snap, fdef = parts
+                orig_names = {n.id for n in ast.walk(tree[0]) if isinstance(n, ast.Name)}
+                seen = set()
+
+                def report(clause, detail):
+                    if clause in seen or clause.startswith("hygiene/"):
+                        return          # hygiene of a single program is reported by the per-program leg
+                    seen.add(clause)
+                    acc.viol(PROP, f"{PROP}/{clause}", f"reused transformer, {names}: {detail}", (tuple(names),), shape="reuse", case=case)
+                census(snap, scfg, fdef, orig_names, report)
+    return acc
+
+
 def run(tier: str, seed: int):
     progs = rotate(programs(tier), seed)
     acc = Acc()
     for r in shard_map(_work, [progs[i:i + 200] for i in range(0, len(progs), 200)]):
         acc.merge(r)
+    alphabet = reuse_alphabet(tier)
+    depth = 2
+    firsts = alphabet if tier == "quick" else alphabet
+    for r in shard_map(_reuse_work, [([f], alphabet, depth) for f in firsts]):
+        acc.merge(r)
+    if tier != "quick":
+        small = alphabet[::5]
+        for r in shard_map(_reuse_work, [([f], small, 3) for f in small]):
+            acc.merge(r)
     spec = graph_spec(tier)
     acc.merge(sweep(__name__, spec, {}, seed))
     cov = {"rule": "(a) every program accepted by the source pipeline (S, X, targeted) and (b) every closed CFG of the graph families built from "
                    "AST blocks (bare and Expr-wrapped test convention), restructured and passed to SCFG2AST: static census of the returned tree "
                    "by node identity and by multiset of control-variable assignments; a state is one censused output tree, a transition one "
-                   "original statement / block located in it",
+                   "original statement / block located in it; (c) histories of 2 (thorough: 3) transform() calls on ONE SCFG2ASTTransformer "
+                   "instance over the S(<=1) programs: the last result must equal a fresh instance's (ast.dump) and pass the census",
            "bounds": {"programs": len(progs), "E_max_blocks": spec["E"], "lists": {k: len(v) for k, v in spec["LISTS"].items()}},
            "programs": len(progs)}
     return {"acc": acc, "coverage": cov, "assumptions": ["pipeline crashes on programs are C07's clause and only counted here"]}
@@ -124,6 +218,13 @@ def replay(case) -> Acc:
     acc = Acc()
     if case.get("kind") == "graph":
         check_graph(tuple(tuple(r) for r in case["graph"]), case.get("family", "replay"), acc, {})
+    elif case.get("kind") == "reuse":
+        hist = list(zip(case["labels"], case["sources"]))
+        alphabet = list({h[0]: h for h in hist}.values())
+        r = _reuse_work(([hist[0]], alphabet, len(hist)))
+        want = tuple(case["labels"])
+        for v in r.viols:
+            acc.viols.append(v)
     else:
         check_program(case.get("label", "replay"), case["source"], acc)
     return acc
